@@ -6,10 +6,12 @@ CFG = {'assumptions': ["64*len(words) < 2^31 and len(values)*w < 2^31 (Go's int3
         'bitmap.Getw': 'bitmap.Getw(bitmap.Join(values, w), i, w) for every i',
         'bitmap.Slice': 'bitmap.Slice (+ input compared before/after)'},
  'rule': 'cases = Join/Getw: all 7 widths x (every list of 0..3 values over {0,1,2^w-1,2^w,2^64-1}; list lengths '
-         'around 1, 2, 3.5 and 5 words of packed bits with 6 value patterns incl. bits above w; random) - the '
+         'around 1, 2, 3.5 and 5 words of packed bits with 6 value patterns incl. bits above w; random; long lists of '
+         '31..33, 64, 100 packed words; huge lists just beyond 2^15 and 2^16 packed bits) - the '
          'observation is the returned words, their len, every Getw result and an input-unchanged flag; Slice: all '
          '(from,to) over bitmaps of 0..3 words + random bitmaps of 1..20 words with ends on/next to word boundaries '
-         'and lengths 64k-1/64k/64k+1 - the observation is the returned words (len included) and the '
+         'and lengths 64k-1/64k/64k+1 + sparse bitmaps of 30..100 words + bitmaps of 513/1025/2049 words with ranges '
+         'around bit 2^14..2^17 - the observation is the returned words (len included) and the '
          'input-unchanged flag. Non-trivial: Join with >= 2 values, a stored 1-bit and (w<64) a bit above w that '
          'must be cut off; Slice with a non-empty range containing a 1-bit. shape key = (w, packed length class) / '
          '(offset classes of from and to, span, length class, 1-bit just before / just after the range, result '
